@@ -7,7 +7,7 @@
 EXTENDS JetProg
 CONSTANTS Depth, Kinds
 
-Focals == {"read", "set", "shadow", "setvm", "shadowvm", "shadowglobal", "setundef", "multi"}
+Focals == {"read", "set", "shadow", "setvm", "shadowvm", "shadowglobal", "setundef", "multi", "lookupmiss", "lookuphit"}
 
 Reads(pfx) == << P(pfx \o "s", Var("s")), P(pfx \o "p", Var("p")), P(pfx \o "g", Var("g")),
                  P(pfx \o "i1", IsSetE("x1")), P(pfx \o "i2", IsSetE("x2")), P(pfx \o "i3", IsSetE("x3")),
@@ -21,6 +21,9 @@ Focal(f) ==
     [] f = "shadowvm"     -> <<LetS("fl", "p", Lit("plocal"))>> \o Reads("f")
     [] f = "shadowglobal" -> <<LetS("fl", "g", Lit("glocal"))>> \o Reads("f")
     [] f = "setundef"     -> <<T("f0"), SetS("fs", "r", Lit("z")), T("f1")>>
+    \* v, ok := m[k] declares v even when the key is absent: a later v = ... stays inside
+    [] f = "lookupmiss"   -> <<Lookup("fl", "s", "x3", "miss")>> \o Reads("f") \o <<SetS("fs", "s", Lit("s1")), P("fs2", Var("s"))>>
+    [] f = "lookuphit"    -> <<Lookup("fl", "s", "x3", "hit")>> \o Reads("f") \o <<SetS("fs", "s", Lit("s1")), P("fs2", Var("s"))>>
     [] f = "multi"        -> <<LetS("fl", "x3", Lit("m3")), SetS("fs", "s", Var("x3")), LetS("fl2", "_", Lit("d"))>> \o Reads("f")
 
 VM == [NoVarsMap EXCEPT !["p"] = "vmP"]
